@@ -15,7 +15,13 @@ RULE = ('exhaustive small scope: every cluster-assignment vector up to the tier\
         'over the extreme values {-128,-1,0,1,127} of int8 and {0,1,128,255} of uint8, one dtype per case, wrapping '
         'differences included; grouped_mean also with the VALUES in every dtype of int8/uint8/int16/uint16/int32/float32/bool (every '
         'cluster vector up to length 3 (quick) / 4 and a quarter of the next length, values at the ends of the dtype\'s range so that '
-        'per-cluster sums leave it, 1-D and 2 columns); then seeded random long vectors. Non-trivial = at least two spikes and, '
+        'per-cluster sums leave it, 1-D and 2 columns); stage 5: ids anywhere in the range of the dtype that holds them for the '
+        'table-based helpers and the selection / query routes (every vector up to length 2 over {0,1,3,127,128,200,255,256,32767,'
+        '32768,40000,65535,65536,70000} for _unique / grouped_mean, random ones up to 10 spikes with ids below 2^17, under every '
+        'dtype of int8/uint8/int16/uint16/int32/uint32/int64 that holds them, so with the top bit of the unsigned dtypes set), '
+        'and the three TemplateModel queries on an instance built by the real loader from a dataset directory (every template '
+        'vector of length 2..3 (quick) / 4 over {0,1,2,3}, spike_clusters.npy absent or present, every dtype); '
+        'then seeded random long vectors. Non-trivial = at least two spikes and, '
         'for grouping/selection, at least two distinct ids or a non-empty result; distinct = distinct '
         'abstract input.')
 EXHAUSTIVE = {'quick': True, 'thorough': True}
@@ -33,7 +39,8 @@ CLAUSES = {
 }
 TRUSTED = ['np.argsort(kind="mergesort") is a stable sort; np.isin / np.bincount / np.add.at / np.unique as documented',
            'TemplateModel query methods are run on an instance built with __new__ and the three attributes they '
-           'read (spike_clusters, spike_templates, n_templates); dataset loading is C04',
+           'read (spike_clusters, spike_templates, n_templates); stage 5: also on an instance built by TemplateModel(dir_path=...) '
+           'from a minimal dataset directory with at least two spikes (what else the loader does is C04)',
            'the one floating-point division of grouped_mean is reproduced with Coq primitive floats on exact operands']
 ASSUMES = ['values fit the dtype; kinds spc / spc_flatten: max - min of the ids < 2^31 and the model is over Z (justified by '
            'C07_no_wrap); kinds spc_dt / index_of_dt: the dtype-aware model (modular first difference, int32 table size), '
